@@ -12,6 +12,19 @@ HERE = os.path.dirname(os.path.abspath(__file__))
 ROOT = os.path.dirname(HERE)
 LEAN = os.path.join(ROOT, "lean")
 REPO = os.environ.get("AMOCO_REPO", "/repo")
+# runs against a scratch worktree (seeded changes) keep their replays and evidence apart from those of /repo
+SCRATCH = "" if os.path.realpath(REPO) == "/repo" else "_scratch"
+
+
+def tree_id():
+    """which source tree a record was produced on: path, HEAD and whether amoco/ is modified"""
+    import subprocess
+    def git(*a):
+        try:
+            return subprocess.run(["git", "-C", REPO] + list(a), stdout=subprocess.PIPE, stderr=subprocess.DEVNULL, text=True).stdout.strip()
+        except Exception:
+            return ""
+    return {"repo": os.path.realpath(REPO), "head": git("rev-parse", "HEAD"), "modified": git("status", "--porcelain", "--", "amoco")[:200]}
 DRIVER = os.path.join(LEAN, ".lake", "build", "bin", "amoco_driver")
 ALLOWED_AXIOMS = {"propext", "Classical.choice", "Quot.sound"}
 FORBIDDEN = re.compile(r"\bsorry\b|\badmit\b|^\s*axiom\s|native_decide|bv_decide|implemented_by|\bunsafe\s|maxHeartbeats\s+0")
@@ -277,8 +290,13 @@ class Check(object):
             self.cov["samples"].append(obj)
 
     # -- violations ----------------------------------------------------------------
+    def tree(self):
+        if getattr(self, "_tree", None) is None:
+            self._tree = tree_id()
+        return self._tree
+
     def replay_path(self):
-        d = os.path.join(ROOT, "replays")
+        d = os.path.join(ROOT, "replays" + SCRATCH)
         os.makedirs(d, exist_ok=True)
         self.nreplay += 1
         return os.path.join(d, "%s-%d-%d.json" % (self.id, seed(), self.nreplay))
@@ -296,7 +314,7 @@ class Check(object):
         path = self.replay_path()
         rec = {"property": self.id, "kind": kind, "broken": broken, "signature": signature, "what": what,
                "case": case, "real": real, "model": model, "expected": expected, "seed": seed(),
-               "failing_input_found": failing_input_found}
+               "failing_input_found": failing_input_found, "tree": self.tree()}
         with open(path, "w") as f:
             json.dump(rec, f, indent=1, default=repr)
         rec["replay"] = path
@@ -334,8 +352,8 @@ class Check(object):
         ev = {"property_id": self.id, "tier": self.tier, "seed": seed(), "level": self.level,
               "coverage": cov, "assumptions": self.assumptions,
               "wall_s": round(time.time() - self.t0, 2), "violations": len(self.violations)}
-        os.makedirs(os.path.join(ROOT, "evidence"), exist_ok=True)
-        with open(os.path.join(ROOT, "evidence", "%s.json" % self.id), "w") as f:
+        os.makedirs(os.path.join(ROOT, "evidence" + SCRATCH), exist_ok=True)
+        with open(os.path.join(ROOT, "evidence" + SCRATCH, "%s.json" % self.id), "w") as f:
             json.dump(ev, f, indent=1, default=repr)
         print("%s %s: %d obligations (%d discharged), %d cases (%d distinct non-trivial), %d known findings hit, %d violations, %.1fs"
               % (self.id, self.tier, nob, ndis, self.evaluations, len(self.distinct), len(self.known_hit),
